@@ -8,7 +8,7 @@ ID = "C06"
 LEVEL = "exploration"
 RULE = (
     "Engine-A runs on devices with 2..4 terminals, terminal_psi in {0, None, real/complex 0<|v|<=1}, refresh-heavy drives "
-    "(time-dependent fields, screening), injected refusals, thermalisation; after every update psi on terminal sites == terminal "
+    "(time-dependent fields, screening), injected refusals, thermalisation, continuation from the run's own file with the options read back; after every update psi on terminal sites == terminal "
     "value; before every psi attempt the identity rows of the Laplacian == terminal site set (empty when unset) and the update "
     "identity holds on all rows; non-trivial = at least 3 updates on a device with terminals; distinct = scenario digests"
 )
@@ -30,10 +30,42 @@ def gen(seed, idx, tier):
         p_remesh=0.25,
         p_overlap=0.3,
     )
+    if scn["options"].get("skip_time", 0.0) == 0.0 and rnd.random() < 0.2:
+        # life cycle: the run is continued from its own file - the Solution read back supplies both
+        # the seed state and the options object, exactly as the file recorded them
+        scn["reload_phase"] = {"steps": rnd.randint(2, 6)}
     return scn
 
 
 def run(scn):
+    import copy
+
+    from ..common import Discard
+    from ..engine import run_scenario
+
+    if not scn.get("reload_phase"):
+        return _run(scn)
+    import tdgl
+
+    s0 = copy.deepcopy(scn)
+    rp = s0.pop("reload_phase")
+    s0["faults"] = []
+    s0["options"]["solve_time"] = min(s0["options"]["solve_time"], s0["options"]["dt_init"] * rp["steps"])
+    s0["observer"] = {"output": {"path": "first.h5", "absolute": True}}
+    sim0, h0 = run_scenario(s0)
+    try:
+        if h0.outcome != "solution" or h0.solution is None or not getattr(h0.solution, "path", None):
+            raise Discard(f"first run did not complete: {h0.outcome}")
+        loaded = tdgl.Solution.from_hdf5(h0.solution.path)
+        mesh = h0.device.mesh
+        s1 = copy.deepcopy(scn)
+        s1.pop("device_history", None)
+        return _run(s1, seed_solution=loaded, options_as_is=loaded.options, mesh_from=mesh)
+    finally:
+        sim0.cleanup()
+
+
+def _run(scn, **kw):
     ck = C06Pinning()
     ck2 = C02Update()  # free evolution of unpinned rows: the update identity on the rows actually handed over
     tp = scn["options"].get("terminal_psi", 0.0)
@@ -42,7 +74,8 @@ def run(scn):
         [ck, ck2],
         lambda h, c: len(h.stages["S"]) >= 3,
         lambda h: (("none" if tp is None else ("zero" if tp == 0 else "nonzero")),),
-        extra=lambda h, c: {"max_drift": ck.max_drift, "attempts_checked": ck.checked},
+        extra=lambda h, c: {"max_drift": ck.max_drift, "attempts_checked": ck.checked, "reloaded": bool(kw)},
+        **kw,
     )
 
 
